@@ -23,7 +23,10 @@ from ixai.storage import BatchStorage
 from ixai.utils.wrappers.base import Wrapper
 
 _EXTRA_ARGS = {"FBeta": {"beta": 2.0}, "MacroFBeta": {"beta": 0.5}, "MicroFBeta": {"beta": 2.0},
-               "WeightedFBeta": {"beta": 0.5}}
+               "WeightedFBeta": {"beta": 0.5},
+               # betas for two of the three labels the streams use: for a pair involving the third one the metric accepts
+               # the update but cannot report a value (get raises)
+               "MultiFBeta": {"betas": {0: 1.0, 1: 0.5}, "weights": {0: 1.0, 1: 1.0, 2: 1.0}}}
 
 _ACCEPTED = None
 
@@ -265,7 +268,10 @@ class _StubModel(Wrapper):
 
 def run_metric_plan(plan):
     cfg = plan["config"]
-    info = cfg["metric"]
+    info = dict(cfg["metric"])
+    # a plan that went through a JSON replay file has string keys in dict-valued constructor arguments ({0: 1.0} -> {"0": 1.0})
+    info["args"] = {k: ({(int(kk) if isinstance(kk, str) and kk.lstrip("-").isdigit() else kk): vv for kk, vv in v.items()}
+                        if isinstance(v, dict) else v) for k, v in info.get("args", {}).items()}
     seed = cfg["seed"]
     cls = getattr(rm, info["name"])
     res = {"ok": True, "violation": None, "ops_run": 0, "aborted": None, "probes": {}, "faults_fired": {},
@@ -432,7 +438,21 @@ def run_metric_plan(plan):
                     arg = copy.deepcopy(pred) if info["dict_input"] else pred.get("output", 0)
                     fresh = cls(**info["args"])
                     fresh.update(y_true=y, y_pred=arg)       # a pair the fresh metric rejects aborts the run (domain)
-                    want = sign * fresh.get()
+                    try:
+                        want = sign * fresh.get()
+                        unreportable = False
+                    except Exception:  # noqa: BLE001
+                        # the metric takes the pair but cannot report a value for it: the loss may raise the same way,
+                        # but it must leave the shared metric as it found it (judged below, like after every operation)
+                        unreportable = True
+                        want = None
+                    if unreportable:
+                        probe("pair_without_reportable_value")
+                        try:
+                            obj(y_true=y, y_prediction=pred) if op.get("kw") else obj(y, pred)
+                        except Exception:  # noqa: BLE001
+                            pass
+                        raise _Continue()
                     try:
                         got = obj(y_true=y, y_prediction=pred) if op.get("kw") else obj(y, pred)
                     except Exception as exc:  # noqa: BLE001
@@ -491,6 +511,8 @@ def run_metric_plan(plan):
                 b = cls.get(metric)
                 if not same_value(a, b, 0.0):
                     return viol("get-not-idempotent", "%r then %r" % (a, b), i)
+        except _Continue:
+            pass
         except Exception as exc:  # noqa: BLE001
             res["aborted"] = "%s: %s" % (type(exc).__name__, str(exc)[:80])
             break
@@ -499,11 +521,19 @@ def run_metric_plan(plan):
         v = check_discipline(i)
         if v:
             return v
-        now = cls.get(metric)
+        try:
+            now = cls.get(metric)
+        except Exception as exc:  # noqa: BLE001
+            return viol("metric-value-changed", "metric reported %r before the run; after the operation its get() raises %s: %s"
+                        % (initial, type(exc).__name__, str(exc)[:80]), i)
         if not same_value(now, initial):
             return viol("metric-value-changed", "metric reports %r after the operation, %r before the run" % (now, initial), i)
     res["digest"] = h.hexdigest()
     return res
+
+
+class _Continue(Exception):
+    pass
 
 
 def _thaw(v):
